@@ -42,7 +42,8 @@ const c15MaxDelta = 65535
 // below the int32 limit so that height+delta is exact in int32.
 const c15MaxHeight = 1<<31 - 1<<17
 
-const c15MaxN = C15_MAXN
+// c15MinN..c15MaxN: number of HTLCs already recorded on the invoice (set by the entry).
+var c15MinN, c15MaxN = 0, 2
 
 // ---------------------------------------------------------------------------
 // fakes
@@ -145,13 +146,19 @@ func (d *c15DB) InvoicesSettledSince(context.Context, uint64) ([]Invoice, error)
 	return nil, errC15Unused
 }
 func (d *c15DB) DeleteInvoice(context.Context, []InvoiceDeleteRef) error { return errC15Unused }
-func (d *c15DB) DeleteCanceledInvoices(context.Context) error           { return errC15Unused }
+func (d *c15DB) DeleteCanceledInvoices(context.Context) error            { return errC15Unused }
 
 // found mirrors fetchInvoiceNumByRef for a store with one invoice: a reference
-// that names the payment hash finds the invoice iff the hash is its key.
+// that names a payment hash finds the invoice iff the hash is its key; a
+// reference by payment address alone finds it iff the address is the invoice's.
 func (d *c15DB) found(ref InvoiceRef) bool {
 	h := ref.PayHash()
-	return h != nil && *h == d.hash
+	if h != nil {
+		return *h == d.hash
+	}
+	// AMP HTLCs name the invoice by payment address only
+	a := ref.PayAddr()
+	return a != nil && *a != BlankPayAddr && *a == d.inv.Terms.PaymentAddr
 }
 
 func (d *c15DB) LookupInvoice(_ context.Context, ref InvoiceRef) (Invoice, error) {
@@ -165,7 +172,7 @@ func (d *c15DB) LookupInvoice(_ context.Context, ref InvoiceRef) (Invoice, error
 	return *c, nil
 }
 
-func (d *c15DB) UpdateInvoice(_ context.Context, ref InvoiceRef, _ *SetID,
+func (d *c15DB) UpdateInvoice(_ context.Context, ref InvoiceRef, hint *SetID,
 	cb InvoiceUpdateCallback) (*Invoice, error) {
 
 	if !d.found(ref) {
@@ -176,6 +183,15 @@ func (d *c15DB) UpdateInvoice(_ context.Context, ref InvoiceRef, _ *SetID,
 	if err != nil {
 		return nil, err
 	}
+	// like both stores: with a set id hint only the HTLCs of that set of an
+	// AMP invoice are fetched
+	if hint != nil && work.IsAMP() {
+		for k, h := range work.Htlcs {
+			if h.AMP == nil || h.AMP.Record.SetID() != [32]byte(*hint) {
+				delete(work.Htlcs, k)
+			}
+		}
+	}
 	upd := c15NewUpdater(work)
 	d.updates++
 	res, err := UpdateInvoice(ref.PayHash(), work, time.Time{}, cb, upd)
@@ -183,23 +199,47 @@ func (d *c15DB) UpdateInvoice(_ context.Context, ref InvoiceRef, _ *SetID,
 		d.failed++
 		return nil, err
 	}
-	d.inv = res
+	// the HTLCs that were not fetched stay as they are
+	stored, err := CopyInvoice(res)
+	if err != nil {
+		return nil, err
+	}
+	for k, h := range d.inv.Htlcs {
+		if _, ok := stored.Htlcs[k]; !ok {
+			stored.Htlcs[k] = h
+		}
+	}
+	d.inv = stored
 	if upd.calls > 0 || upd.finalized > 0 {
 		d.upd = upd
 	}
 	return res, nil
 }
 
-type c15Interceptor struct{}
+// c15Interceptor is the fake HtlcInterceptor. With respond == false it behaves
+// like a registry without an interceptor client (the callback is not called).
+type c15Interceptor struct {
+	respond bool
+	resp    HtlcModifyResponse
+}
 
-func (c15Interceptor) Intercept(HtlcModifyRequest, func(HtlcModifyResponse)) error { return nil }
+func (c c15Interceptor) Intercept(_ HtlcModifyRequest, cb func(HtlcModifyResponse)) error {
+	if c.respond {
+		cb(c.resp)
+	}
+	return nil
+}
 
 func c15Registry(db *c15DB, rejectDelta int32) *InvoiceRegistry {
+	return c15RegistryIC(db, rejectDelta, c15Interceptor{})
+}
+
+func c15RegistryIC(db *c15DB, rejectDelta int32, ic c15Interceptor) *InvoiceRegistry {
 	return &InvoiceRegistry{
 		idb: db,
 		cfg: &RegistryConfig{
 			FinalCltvRejectDelta: rejectDelta,
-			HtlcInterceptor:      c15Interceptor{},
+			HtlcInterceptor:      ic,
 		},
 		notificationClients:       make(map[uint32]*InvoiceSubscription),
 		singleNotificationClients: make(map[uint32]*SingleInvoiceSubscription),
@@ -255,16 +295,16 @@ func c15Arr32(b []byte) [32]byte {
 // CancelInvoice / cancelSingleHtlc establishes. It is ASSUMED of the pre-state
 // and ASSERTED of the post-state of every step (so the claim is inductive).
 //
-//  - a regular invoice knows its preimage and the preimage hashes to the key it
-//    is stored under (invoicesrpc.AddInvoice / processKeySend derive the hash
-//    from the preimage); a hold invoice learns it when it is settled;
-//  - every recorded HTLC had Expiry >= AcceptHeight + Terms.FinalCltvDelta (in Z);
-//  - Open:     no settled HTLC; the accepted HTLCs are one MPP set in progress:
-//              common non-zero total >= Terms.Value and amounts summing below it;
-//  - Accepted: hold invoice, no settled HTLC, >= 1 accepted HTLC,
-//              AmtPaid = sum(accepted) >= Terms.Value;
-//  - Settled:  no accepted HTLC, >= 1 settled HTLC, AmtPaid = sum(settled) >= Terms.Value;
-//  - Canceled: every HTLC canceled.
+//   - a regular invoice knows its preimage and the preimage hashes to the key it
+//     is stored under (invoicesrpc.AddInvoice / processKeySend derive the hash
+//     from the preimage); a hold invoice learns it when it is settled;
+//   - every recorded HTLC had Expiry >= AcceptHeight + Terms.FinalCltvDelta (in Z);
+//   - Open:     no settled HTLC; the accepted HTLCs are one MPP set in progress:
+//     common non-zero total >= Terms.Value and amounts summing below it;
+//   - Accepted: hold invoice, no settled HTLC, >= 1 accepted HTLC,
+//     AmtPaid = sum(accepted) >= Terms.Value;
+//   - Settled:  no accepted HTLC, >= 1 settled HTLC, AmtPaid = sum(settled) >= Terms.Value;
+//   - Canceled: every HTLC canceled.
 func c15Inv(inv *Invoice, hash lntypes.Hash) bool {
 	ok := true
 	var sumAcc, sumSet, T lnwire.MilliSatoshi
@@ -336,7 +376,7 @@ func c15MakePre() (*c15Pre, *Invoice) {
 	p.state = ContractState(vChoice("invState", 4))
 	p.hodl = vChoice("hodl", 2) == 1
 	p.addrReq = vChoice("addrReq", 2) == 1
-	p.n = vChoice("nHtlc", c15MaxN+1)
+	p.n = c15MinN + vChoice("nHtlc", c15MaxN-c15MinN+1)
 	p.value = lnwire.MilliSatoshi(vU64("value"))
 	p.amtPaid = lnwire.MilliSatoshi(vU64("amtPaid"))
 	p.payAddr = c15Arr32(vBytes("payAddr", 32))
@@ -401,7 +441,7 @@ func c15MakePre() (*c15Pre, *Invoice) {
 
 func c15Config() {
 	vInjective("sha256")
-	vAssumption("non-AMP invoice (regular / hold / zero-amount; payment address required or optional) with 0..C15_MAXN recorded HTLCs satisfying the representation invariant c15Inv; amounts <= 21e6 BTC, block heights < 2^31-2^17, CLTV deltas in [0,65535]; mpp total_msat any uint64")
+	vAssumption("non-AMP invoice (regular / hold / zero-amount; payment address required or optional) with up to 2 (quick) / 3 (thorough) recorded HTLCs satisfying the representation invariant c15Inv; amounts <= 21e6 BTC, block heights < 2^31-2^17, CLTV deltas in [0,65535]; mpp total_msat any uint64")
 	vAssumption("fake InvoiceDB with one invoice and transactional updates; fake InvoiceUpdater recording what is persisted; HtlcInterceptor that does not intervene; sha256 ideal (collision-free)")
 }
 
@@ -519,11 +559,12 @@ func c15Drain(p *c15Pre, post *Invoice, ch chan interface{}) (settles, fails int
 	return
 }
 
+// c15Subscribe subscribes one link channel to every recorded HTLC, whatever its
+// state (only held HTLCs have a subscriber in practice; listening to all of
+// them also exposes a resolution sent for the wrong HTLC).
 func c15Subscribe(p *c15Pre, reg *InvoiceRegistry, ch chan interface{}) {
 	for j := 0; j < p.n; j++ {
-		if p.h[j].state == HtlcStateAccepted {
-			reg.hodlSubscribe(ch, p.h[j].key)
-		}
+		reg.hodlSubscribe(ch, p.h[j].key)
 	}
 }
 
@@ -538,8 +579,18 @@ const (
 	c15Blinded
 )
 
-// VerifC15Htlc: NotifyExitHopHtlc's locked core on a symbolic stored invoice.
-func VerifC15Htlc() {
+// VerifC15Htlc: NotifyExitHopHtlc's locked core on a symbolic stored invoice
+// with 0..2 recorded HTLCs, no interceptor client.
+func VerifC15Htlc() { c15MinN, c15MaxN = 0, 2; c15HtlcEvent(false) }
+
+// VerifC15HtlcN3: the same with exactly 3 recorded HTLCs (thorough tier).
+func VerifC15HtlcN3() { c15MinN, c15MaxN = 3, 3; c15HtlcEvent(false) }
+
+// VerifC15HtlcIntercept: an interceptor client answers: it either replaces the
+// amount the HTLC is worth (any non-zero value) or cancels the HTLC set.
+func VerifC15HtlcIntercept() { c15MinN, c15MaxN = 0, 2; c15HtlcEvent(true) }
+
+func c15HtlcEvent(intercept bool) {
 	c15Config()
 	p, inv := c15MakePre()
 	db := &c15DB{hash: p.hash, inv: inv}
@@ -585,7 +636,24 @@ func VerifC15Htlc() {
 		ctx.totalAmtMsat = total
 	}
 
-	reg := c15Registry(db, rejectDelta)
+	ic := c15Interceptor{}
+	cancelSet := false
+	if intercept {
+		ic.respond = true
+		if vChoice("interceptCancelsSet", 2) == 1 {
+			cancelSet = true
+			ic.resp.CancelSet = true
+		} else {
+			// the client decides what the HTLC is worth (custom channels); 0 = keep
+			ic.resp.AmountPaid = lnwire.MilliSatoshi(vU64("interceptAmt"))
+			vAssume(ic.resp.AmountPaid <= c15MaxMsat)
+			if ic.resp.AmountPaid != 0 {
+				amt = ic.resp.AmountPaid
+			}
+		}
+	}
+
+	reg := c15RegistryIC(db, rejectDelta, ic)
 	ch := make(chan interface{}, 16)
 	c15Subscribe(p, reg, ch)
 
@@ -611,7 +679,7 @@ func VerifC15Htlc() {
 		maxDelta = p.finalDelta
 	}
 	expOK := uint64(expiry) >= uint64(height)+uint64(maxDelta) // in Z: no operand exceeds 2^32
-	var sumAcc lnwire.MilliSatoshi                              // <= 4*2.1e18 < 2^64
+	var sumAcc lnwire.MilliSatoshi                             // <= 4*2.1e18 < 2^64
 	allTotalsEq, mppPending := true, false
 	for j := 0; j < p.n; j++ {
 		if p.h[j].state == HtlcStateAccepted {
@@ -635,7 +703,9 @@ func VerifC15Htlc() {
 	if !isNew {
 		// (4) replay
 		vAssert(c15Unchanged(p, db) && db.upd == nil, "(4) a replayed HTLC changes nothing")
-		vAssert(settles == 0, "(4) a replayed HTLC notifies nobody else")
+		// (the registry re-announces the settled HTLCs of a settled invoice on a
+		// replayed settle; c15Drain has checked those against the stored state)
+		vAssert(settles == 0 || p.h[kc-1].state == HtlcStateSettled, "(4) a replayed held/canceled HTLC releases nothing")
 		switch p.h[kc-1].state {
 		case HtlcStateCanceled:
 			r, ok := res.(*HtlcFailResolution)
@@ -649,6 +719,29 @@ func VerifC15Htlc() {
 			r, ok := res.(*HtlcSettleResolution)
 			vAssert(ok && r.Preimage.Hash() == p.hash, "(4) replay of a settled HTLC is settled again with a preimage of its hash")
 			vReach("replay-settled")
+		}
+		return
+	}
+
+	if cancelSet {
+		// the interceptor client refused the set: nothing is settled, the
+		// arriving HTLC is failed, the accepted HTLCs of an open invoice are
+		// canceled, the invoice state is untouched
+		r, ok := res.(*HtlcFailResolution)
+		vAssert(ok && !recorded && settles == 0 && post.State == p.state, "(1) a set refused by the interceptor releases nothing")
+		if p.state == ContractOpen {
+			vAssert(ok && r.Outcome == ExternalValidationFailed, "refused set fails with ExternalValidationFailed")
+			for j := 0; j < p.n; j++ {
+				want := p.h[j].state
+				if want == HtlcStateAccepted {
+					want = HtlcStateCanceled
+				}
+				vAssert(post.Htlcs[p.h[j].key].State == want, "the accepted HTLCs of a refused set are canceled")
+			}
+			vReach("intercept-cancel-set")
+		} else {
+			vAssert(c15Unchanged(p, db), "a refused set on a non-open invoice changes nothing")
+			vReach("intercept-cancel-not-open")
 		}
 		return
 	}
@@ -707,7 +800,10 @@ func VerifC15Htlc() {
 
 // VerifC15SettleHodl: the real SettleHodlInvoice with an arbitrary preimage on
 // a symbolic stored invoice.
-func VerifC15SettleHodl() {
+func VerifC15SettleHodl()   { c15MinN, c15MaxN = 0, 2; c15SettleHodlEvent() }
+func VerifC15SettleHodlN3() { c15MinN, c15MaxN = 3, 3; c15SettleHodlEvent() }
+
+func c15SettleHodlEvent() {
 	c15Config()
 	p, inv := c15MakePre()
 	db := &c15DB{hash: p.hash, inv: inv}
@@ -753,7 +849,10 @@ func VerifC15SettleHodl() {
 // event 3: CancelInvoice (forced or not)
 // ---------------------------------------------------------------------------
 
-func VerifC15Cancel() {
+func VerifC15Cancel()   { c15MinN, c15MaxN = 0, 2; c15CancelEvent() }
+func VerifC15CancelN3() { c15MinN, c15MaxN = 3, 3; c15CancelEvent() }
+
+func c15CancelEvent() {
 	c15Config()
 	p, inv := c15MakePre()
 	db := &c15DB{hash: p.hash, inv: inv}
@@ -785,7 +884,7 @@ func VerifC15Cancel() {
 		}
 		vAssert(post.Htlcs[p.h[j].key].State == HtlcStateCanceled, "every HTLC of a canceled invoice is canceled")
 	}
-	vAssert(fails == nAcc, "every accepted HTLC is told to cancel")
+	vAssert(nAcc <= fails && fails == p.n, "every HTLC of the canceled invoice is told to cancel")
 	vReach("canceled")
 }
 
@@ -793,7 +892,10 @@ func VerifC15Cancel() {
 // event 4: cancelSingleHtlc (MPP set timeout)
 // ---------------------------------------------------------------------------
 
-func VerifC15CancelHtlc() {
+func VerifC15CancelHtlc()   { c15MinN, c15MaxN = 0, 2; c15CancelHtlcEvent() }
+func VerifC15CancelHtlcN3() { c15MinN, c15MaxN = 3, 3; c15CancelHtlcEvent() }
+
+func c15CancelHtlcEvent() {
 	c15Config()
 	p, inv := c15MakePre()
 	db := &c15DB{hash: p.hash, inv: inv}
